@@ -18,7 +18,8 @@ EXTENDS Integers, Sequences, FiniteSets, TLC, Json, MethodsGen
 Sides == {"inbound", "outbound"}
 \* policy classes: none | methods (an allow-list of admin methods: AllowedAdmin) | namespaces (AllowedNs) | both
 \* methods2: an allow-list that does NOT contain the streaming method (the stream interceptor's refusal path)
-Policies == {"none", "methods", "methods2", "namespaces", "both"}
+\* empty: a policy that is present but lists nothing (aclPolicy: {}): only the static deny-list applies
+Policies == {"none", "methods", "methods2", "namespaces", "both", "empty"}
 AllowedAdminOf(p) == IF p = "methods2" THEN {"DescribeCluster"}
                      ELSE {"DescribeCluster", "GetNamespace", "StreamWorkflowReplicationMessages"}
 AlwaysDenied == {"RegisterNamespace", "DeprecateNamespace"}
@@ -40,7 +41,14 @@ Transports == {"tcp", "mux"}
 Hdrs == {"none", "bypass", "intra"}
 MethodCases == {[side |-> s, m |-> m, policy |-> p, mapping |-> TRUE, bypass |-> (h = "bypass"), intra |-> (h = "intra"),
                  name |-> "ns-remote-ok", transport |-> tr] :
-                  s \in Sides, m \in Methods, p \in {"none", "methods", "methods2"}, h \in Hdrs, tr \in Transports}
+                  s \in Sides, m \in Methods, p \in {"none", "methods", "methods2", "empty"}, h \in Hdrs, tr \in Transports}
+               \* a namespace allow-list next to the method policy must not soften a method-level refusal (only the cases the method
+               \* policy refuses: what the namespace walk says about the other requests is C16's subject)
+               \cup {[side |-> "inbound", m |-> m, policy |-> "both", mapping |-> TRUE, bypass |-> (h = "bypass"), intra |-> (h = "intra"),
+                      name |-> "ns-remote-ok", transport |-> tr] :
+                       m \in {x \in Methods : (x.service = "workflow" /\ x.method \in AlwaysDenied)
+                                              \/ (x.service = "admin" /\ x.method \notin AllowedAdminOf("both"))},
+                       h \in Hdrs, tr \in Transports}
 NameCases == {[side |-> s, m |-> m, policy |-> p, mapping |-> mp, bypass |-> b, name |-> n, transport |-> "tcp"] :
                   s \in Sides, m \in {x \in Methods : x.hasns /\ ~x.stream}, p \in {"none", "namespaces", "both"}, mp \in BOOLEAN,
                   b \in BOOLEAN, n \in Names}
